@@ -46,7 +46,23 @@ def gen_cases(tier, seed):
 
 def run_case(case):
     p = work.prepare(case, record_sites=False, keep_args=False)
-    out = mon.run_solve(p.rec, p.params, p.x0, p.y0)
+    cb = None
+    x0_expected = None if p.x0 is None else p.x0.copy()
+    y0_expected = None if p.y0 is None else p.y0.copy()
+    if case["gseed"][-1] % 3 == 0 and p.x0 is not None:
+        # the caller owns x0 / y0 and re-uses those buffers while the solve is running (a callback that
+        # publishes the newest trial point into them); the solve must not depend on them any more
+        import numpy as np
+
+        def cb(iterate, next_iterate, accept, _x0=p.x0, _y0=p.y0):
+            _x0[:] = np.resize(np.asarray(next_iterate.x, dtype=float), _x0.shape) + 1.0
+            if _y0 is not None and _y0.size:
+                _y0[:] = -7.0
+
+    out = mon.run_solve(p.rec, p.params, p.x0, p.y0, user_callback=cb)
+    if cb is not None:
+        # the trace checker compares with the start values handed over
+        p.x0, p.y0 = x0_expected, y0_expected
     cls = work.outcome_class(out)
     res = {"viol": [], "ctr": {"solves": 1, "outcome_" + cls.split("@")[0]: 1}}
     if out.result is None:
@@ -59,6 +75,7 @@ def run_case(case):
                        "vetoed_trials": stats["vetoed"], "rejected_trials": stats["controller_rejects"],
                        "paths_checked": stats.get("paths_checked", 0)})
     res["ctr"]["penalty_" + p.cfg["penalty"]] = 1
+    res["ctr"]["runs_with_caller_reusing_start_buffers"] = int(cb is not None)
     res["ctr"]["control_" + p.cfg["control"]] = 1
     if stats["trials"] >= 2:
         res["nt_keys"] = ["%s-%s" % (case["fam"], "-".join(map(str, case["gseed"])))]
@@ -74,7 +91,7 @@ def finalize(agg, tier):
                 "Newton type, scaling) x iteration limits 0/1/2/5/40/120 x collect_path in 70% of the runs; non-trivial = "
                 "the solve computed at least two trial steps; distinct by spec seed",
         "floors": {"results_checked": 500, "vetoed_trials": 50, "rejected_trials": 200, "paths_checked": 300,
-                   "effective_accepts": 3000},
+                   "effective_accepts": 3000, "runs_with_caller_reusing_start_buffers": 100},
         "assumptions": ["effective acceptance = controller accepted and (no penalty decision or penalty accepted), taken "
                         "from the penalty proxy and object identities, never from value equality"],
     }
